@@ -6,6 +6,9 @@
 #include <string>
 #include <iostream>
 #include <sstream>
+#ifdef MINISTL_NATIVE
+extern "C" void __vf_model_bound(void) {}
+#endif
 namespace std {
 #ifndef MINISTL_NATIVE
   const nothrow_t nothrow = nothrow_t();
@@ -28,10 +31,19 @@ namespace std {
   void __throw_out_of_range(const char* m) { throw out_of_range(m); }
   void __throw_length_error(const char* m) { throw length_error(m); }
 
+#ifndef MINISTL_STREAM_CAP
+#define MINISTL_STREAM_CAP 128
+#endif
+  // a non-discarding stream owns a buffer of MINISTL_STREAM_CAP bytes from its construction on; outgrowing it is MODEL-BOUND
+  void __ios::init(bool d) {
+    n = 0; rpos = 0; st = 0; fl = ios_base::dec; discard = d; gc = 0; tag = 0;
+    if (d) { b = 0; cap = 0; } else { b = static_cast<char*>(::operator new(MINISTL_STREAM_CAP)); cap = MINISTL_STREAM_CAP; }
+  }
   void __ios::put(const char* s, size_t m) {
     if (discard || m == 0) return;
     if (n + m > cap) {
-      size_t nc = cap * 2; if (nc < n + m) nc = n + m; if (nc < 16) nc = 16;
+      __vf_model_bound();
+      size_t nc = cap * 2; if (nc < n + m) nc = n + m;
       char* nb = static_cast<char*>(::operator new(nc));
       for (size_t i = 0; i < n; ++i) nb[i] = b[i];
       if (b) ::operator delete((void*)b);
